@@ -47,8 +47,10 @@ func vhC03(engine int, breakParams bool) {
 	i := vhFindRoute(engine, exp)
 	symxAssume(i >= 0)
 	req := exp.valid
+	invalid := false
 	if breakParams && symxBool("invalidRequest") {
 		req = greq.Req{} // every required parameter is missing
+		invalid = len(exp.valid.Path)+len(exp.valid.Query)+len(exp.valid.Form)+len(exp.valid.Header) > 0 || exp.valid.HasBody
 	}
 	trace.Reset()
 	var answers []int
@@ -88,7 +90,7 @@ func vhC03(engine int, breakParams bool) {
 	calls := vhCalls()
 	if approved {
 		symxCover("C03.approved")
-		if len(req.Path)+len(req.Query)+len(req.Form)+len(req.Header) > 0 || req.HasBody {
+		if !invalid {
 			symxAssert(len(calls) == 1 && calls[0].Name == exp.name, "C03.approved-valid-request-reaches-the-method")
 		}
 	} else {
